@@ -1419,6 +1419,22 @@ impl RaftLogManager {
             self.pre_ready_snapshot_pointer = Some(snapshot_pointer);
         }
         if let Some(snapshot_pointer) = self.last_ready_snapshot_pointer.take() {
+            if let Some(first_log) = self.logs.first() {
+                let first_index = std::cmp::max(
+                    first_log.log_range.start_index,
+                    first_log.log_range.split_off_index,
+                );
+                if snapshot_pointer.index < first_index {
+                    // remembered from a local compaction that is older than a snapshot installed
+                    // since: the log below first_index is gone and must stay gone
+                    log::warn!(
+                        "ignore the remembered snapshot pointer {}, the log starts at {}",
+                        snapshot_pointer.index,
+                        first_index
+                    );
+                    return;
+                }
+            }
             self.save_new_snapshot_pointer(ctx, snapshot_pointer);
         }
     }
